@@ -151,6 +151,10 @@ func (x *Exec) convert(to types.Type, v Val, st *State) Val {
 			return Val{T: app("gs.frombyte", v.T), Ty: to}
 		}
 		if isInt(from) { // string(rune)
+			// ASCII model, added only where a rune is turned back into a string: the rune of a byte is its value, and
+			// string(rune of byte b) is the one-byte string b
+			x.c.declare("rune.ascii.ax", "(assert (forall ((b (_ BitVec 8))) (! (and (= (rune.ofbyte b) (bv2nat b)) (= (gs.fromrune (rune.ofbyte b)) (gs.frombyte b))) :pattern ((rune.ofbyte b)))))")
+			x.c.trusted["string(rune) / range over a string: ASCII model (one rune per byte, rune = byte value)"] = true
 			return Val{T: app("gs.fromrune", v.T), Ty: to}
 		}
 	}
